@@ -164,9 +164,9 @@ def _clfs():
                                                                         cost_matrix=1 - np.eye(2)),
         "MixtureModelClassifier": lambda s: MixtureModelClassifier(classes=[0, 1], random_state=s),
         "MixtureModelClassifier(bgm)": lambda s: MixtureModelClassifier(
-            mixture_model=BayesianGaussianMixture(n_components=2), classes=[0, 1], random_state=s),
+            mixture_model=BayesianGaussianMixture(n_components=2, random_state=s), classes=[0, 1], random_state=s),
         "SklearnClassifier(GaussianNB)": lambda s: SklearnClassifier(GaussianNB(), classes=[0, 1], random_state=s),
-        "SklearnClassifier(DecisionTree)": lambda s: SklearnClassifier(DecisionTreeClassifier(max_features=1),
+        "SklearnClassifier(DecisionTree)": lambda s: SklearnClassifier(DecisionTreeClassifier(max_features=1, random_state=s),
                                                                        classes=[0, 1], random_state=s),
         "SklearnClassifier(LogisticRegression)": lambda s: SklearnClassifier(LogisticRegression(), classes=[0, 1],
                                                                              random_state=s),
@@ -189,9 +189,9 @@ def _regs():
     return {
         "NICKernelRegressor": lambda s: NICKernelRegressor(random_state=s),
         "NadarayaWatsonRegressor": lambda s: NadarayaWatsonRegressor(random_state=s),
-        "SklearnRegressor(DecisionTree)": lambda s: SklearnRegressor(DecisionTreeRegressor(max_features=1),
+        "SklearnRegressor(DecisionTree)": lambda s: SklearnRegressor(DecisionTreeRegressor(max_features=1, random_state=s),
                                                                      random_state=s),
-        "SklearnNormalRegressor(GP)": lambda s: SklearnNormalRegressor(GaussianProcessRegressor(), random_state=s),
+        "SklearnNormalRegressor(GP)": lambda s: SklearnNormalRegressor(GaussianProcessRegressor(random_state=s), random_state=s),
     }
 
 
@@ -264,5 +264,7 @@ def main(tier="quick", seed=0):
     chk.assumptions = ["a result is the digest of all returned arrays (indices and utilities / predictions) - bitwise "
                        "equality", "np.random.get_state() is not a verdict (third-party estimators draw unused seeds)",
                        "estimator arguments without their own random_state parameter set by the harness are seeded "
-                       "by the harness (zoo models use random_state=seed)"]
+                       "by the harness (zoo models use random_state=seed); wrapped scikit-learn estimators get "
+                       "their own random_state (the wrappers do not propagate theirs - the nested parameter is part of "
+                       "the constructor parameters)"]
     return chk.finish()
